@@ -8,6 +8,7 @@ import (
 	"strings"
 	"time"
 
+	"github.com/PowerDNS/lightningstream/config"
 	"github.com/PowerDNS/lightningstream/lmdbenv"
 	"github.com/PowerDNS/lightningstream/lmdbenv/header"
 	"github.com/PowerDNS/lightningstream/lmdbenv/strategy"
@@ -140,6 +141,7 @@ type appOp struct {
 	Key   []byte
 	Val   []byte // nil = delete
 	Del   bool
+	Ext   int // native mode: number of 8-byte header extension blocks the application writes (0 = plain 24-byte header)
 }
 
 // applyApp commits one application transaction; in native mode values get a header stamped ts.
@@ -156,7 +158,7 @@ func applyApp(env *lmdb.Env, native bool, ts uint64, ops []appOp) error {
 				if op.Del {
 					fl, v = 1, nil
 				}
-				val := mkStored(ts, uint64(txn.ID()), fl, 0, v)
+				val := mkStored(ts, uint64(txn.ID()), fl, op.Ext, v)
 				if err := txn.Put(dbi, op.Key, val, 0); err != nil {
 					return err
 				}
@@ -199,6 +201,18 @@ func genAppOps(r *Rng, native, allowDup bool, n int) []appOp {
 			}
 		}
 	}
+	if r.Chance(8) {
+		// the application empties a whole DBI (the DBI itself stays): every key of its pool deleted
+		if r.Chance(70) {
+			for _, k := range byteKeyPool[:8] {
+				ops = append(ops, appOp{DBI: "app", Key: k, Del: true})
+			}
+		} else {
+			for _, k := range byteKeyPool[:5] {
+				ops = append(ops, appOp{DBI: "zz", Key: k, Del: true})
+			}
+		}
+	}
 	for i := range ops {
 		if ops[i].Del && !native {
 			ops[i].Val = pick(r, instVals)
@@ -227,7 +241,13 @@ func areaInstance(r *Rng, n int, dir string) (*AreaOut, error) {
 			return nil, err
 		}
 		st := memory.New()
-		sy, err := newSyncer(env, st, syncerOpts{Native: native, DupHack: hack, Padding: pad})
+		recvOnly := r.Chance(10) // receive-only: captures and merges like any other instance, never stores
+		sweep := r.Chance(25)    // tomb sweeper configured: LoadOnce refuses to re-create markers older than the load cutoff
+		sy, err := newSyncer(env, st, syncerOpts{Native: native, DupHack: hack, Padding: pad, SyncerOpt: syncer.Options{ReceiveOnly: recvOnly}, Mod: func(c *configT, lc *lmdbCfgT) {
+			if sweep {
+				c.Sweeper = config.Sweeper{Enabled: true, RetentionDays: 1}
+			}
+		}})
 		if err != nil {
 			closeEnv()
 			return nil, err
@@ -238,7 +258,13 @@ func areaInstance(r *Rng, n int, dir string) (*AreaOut, error) {
 		for s := 0; s < steps; s++ {
 			clock += 1000
 			setClock(clock)
-			if err := applyApp(env, native, clock, genAppOps(r, native, hack, 1+r.Intn(4))); err != nil {
+			sops := genAppOps(r, native, hack, 1+r.Intn(4))
+			if native && r.Chance(25) {
+				for j := range sops { // application-written header extension blocks (allowed in a native schema)
+					sops[j].Ext = 1 + r.Intn(2)
+				}
+			}
+			if err := applyApp(env, native, clock, sops); err != nil {
 				closeEnv()
 				return nil, fmt.Errorf("setup app: %w", err)
 			}
@@ -283,7 +309,7 @@ func areaInstance(r *Rng, n int, dir string) (*AreaOut, error) {
 			cancelNow()
 			runCtx = c2
 		}
-		cfg := fmt.Sprintf("(mkICfg %s %s %s false %s)", cBool(native), cBool(hack), cBool(pad), cBool(cancelled))
+		cfg := fmt.Sprintf("(mkICfg %s %s %s %s %s)", cBool(native), cBool(hack), cBool(pad), cBool(recvOnly), cBool(cancelled))
 
 		if r.Chance(25) {
 			// ---------------- SendOnce ----------------
@@ -303,6 +329,15 @@ func areaInstance(r *Rng, n int, dir string) (*AreaOut, error) {
 				obs = "IPanic"
 			case sendErr != nil:
 				obs = fmt.Sprintf("(IErr %d)", instErrClass(sendErr))
+			case recvOnly:
+				ls, _ := st.List(ctx, "")
+				out.OracleN++
+				if len(ls) != 0 {
+					for _, pid := range []string{"C12", "C06"} {
+						out.Oracle = append(out.Oracle, OracleFailure{pid, "receive-only-stores", fmt.Sprintf("a receive-only instance stored %v", ls.Names()), nil})
+					}
+				}
+				obs = fmt.Sprintf("(ISend %s %d [])", cEnv(after, last2), retID)
 			default:
 				// newest blob of this instance
 				ls, _ := st.List(ctx, "")
@@ -419,8 +454,25 @@ func areaInstance(r *Rng, n int, dir string) (*AreaOut, error) {
 			}
 			sds = append(sds, d)
 		}
-		sn := buildSnapshot(fmtv, compat, "b", clock-10, sds)
-		upd := snapshot.Update{Snapshot: sn, NameInfo: snapshot.NameInfo{Kind: snapshot.KindSnapshot, InstanceID: "b", SyncerName: dbName, Timestamp: time.Unix(0, int64(clock-10))}}
+		cutoff := uint64(sy.VerifDeletedCutoff(time.Unix(0, int64(clock))))
+		snapTS := clock - 10
+		if sweep {
+			if r.Chance(50) {
+				snapTS = clock - uint64(36*time.Hour) // the last snapshot of an instance that has been silent for a while
+			}
+			// deletion markers exactly around the load cutoff, mostly for keys this instance may not have
+			for j := range sds {
+				for q := range sds[j].Entries {
+					if r.Chance(45) {
+						sds[j].Entries[q].TimestampNano = pick(r, []uint64{cutoff - 1, cutoff, cutoff + 1, cutoff - uint64(time.Hour), cutoff + uint64(time.Hour)})
+						sds[j].Entries[q].Flags = 1
+						sds[j].Entries[q].Value = nil
+					}
+				}
+			}
+		}
+		sn := buildSnapshot(fmtv, compat, "b", snapTS, sds)
+		upd := snapshot.Update{Snapshot: sn, NameInfo: snapshot.NameInfo{Kind: snapshot.KindSnapshot, InstanceID: "b", SyncerName: dbName, Timestamp: time.Unix(0, int64(snapTS))}}
 		var retID uint64
 		var lc bool
 		var loadErr error
@@ -442,14 +494,14 @@ func areaInstance(r *Rng, n int, dir string) (*AreaOut, error) {
 		}
 		// the snapshot as the code saw it (Append drops all-default entries)
 		seenDBIs, _ := decodeSnapDBIs(sn)
-		cs := fmt.Sprintf("ILoadCase %s %s (mkSnap %d %d %s) %d %d 0 %s", cfg, cEnv(before, last), fmtv, compat, cSnapDBIs(seenDBIs), lastSynced, clock, obs)
+		cs := fmt.Sprintf("ILoadCase %s %s (mkSnap %d %d %s) %d %d %d %s", cfg, cEnv(before, last), fmtv, compat, cSnapDBIs(seenDBIs), lastSynced, clock, cutoff, obs)
 		cases = append(cases, cs)
-		key := fmt.Sprintf("load|%s|%s|%d|%d|%s|%d", cfg, cEnv(before, last), fmtv, compat, cSnapDBIs(seenDBIs), lastSynced)
+		key := fmt.Sprintf("load|%s|%s|%d|%d|%s|%d|%v", cfg, cEnv(before, last), fmtv, compat, cSnapDBIs(seenDBIs), lastSynced, sweep)
 		seen[key] = true
 		if len(before) > 0 && len(sds) > 0 {
 			nontriv[key] = true
 		}
-		hist(out.Hist, fmt.Sprintf("load/native=%v/fmt=%d/err=%v", native, fmtv, loadErr != nil))
+		hist(out.Hist, fmt.Sprintf("load/native=%v/fmt=%d/sweeper=%v/err=%v", native, fmtv, sweep, loadErr != nil))
 		out.CaseDescs = append(out.CaseDescs, key)
 
 		// ---- oracles ----
@@ -467,6 +519,69 @@ func areaInstance(r *Rng, n int, dir string) (*AreaOut, error) {
 			if fmtv == 0 || compat > 3 {
 				out.Oracle = append(out.Oracle, OracleFailure{"C18", "version-gate", fmt.Sprintf("format %d / compat %d was merged", fmtv, compat), in})
 			}
+			// C18 / C20: a snapshot DBI whose stated transform this receiver does not know, must not apply (native
+			// schema), or that contradicts the DUPSORT flag (format >= 3) is refused — whether or not the DBI exists
+			for _, d := range seenDBIs {
+				if strings.HasPrefix(d.Name, "_sync") {
+					continue
+				}
+				isDupTr := d.Transform == "dupsort_hack_v1"
+				why := ""
+				switch {
+				case d.Transform != "" && !isDupTr:
+					why = fmt.Sprintf("unknown transform %q", d.Transform)
+				case native && d.Transform != "":
+					why = fmt.Sprintf("transform %q in a native schema", d.Transform)
+				case fmtv >= 3 && (d.Flags&uint64(lmdb.DupSort) != 0) != isDupTr:
+					why = fmt.Sprintf("DUPSORT flag %v but transform %q (format %d)", d.Flags&uint64(lmdb.DupSort) != 0, d.Transform, fmtv)
+				}
+				if why != "" {
+					for _, pid := range []string{"C18", "C20"} {
+						out.Oracle = append(out.Oracle, OracleFailure{pid, "transform-refused", fmt.Sprintf("snapshot DBI %s with %s was merged instead of refused", d.Name, why), in})
+					}
+				}
+			}
+			// C04: with the sweeper configured, a deletion marker older than the load cutoff (now - retention + buffer,
+			// `now` being the time of THIS load) is never re-created on an instance that has no entry for the key;
+			// a younger marker is stored (markers travel)
+			if sweep {
+				tgt := func(ds []dbiDump, name string) map[string][]byte {
+					m := map[string][]byte{}
+					if !native {
+						name = shadowPrefix + name
+					}
+					for _, d := range ds {
+						if d.Name == name {
+							for _, p := range d.Data {
+								m[string(p.K)] = p.V
+							}
+						}
+					}
+					return m
+				}
+				for _, d := range seenDBIs {
+					if strings.HasPrefix(d.Name, "_sync") {
+						continue
+					}
+					b0, a0 := tgt(before, d.Name), tgt(after, d.Name)
+					if !native && lc {
+						continue // the capture step may have touched the shadow DBI first
+					}
+					for _, e := range d.Entries {
+						isDel := e.Flags&1 == 1 || (fmtv < 2 && len(e.Value) == 0)
+						if _, had := b0[string(e.Key)]; had || !isDel || e.TimestampNano == 0 {
+							continue
+						}
+						_, has := a0[string(e.Key)]
+						if e.TimestampNano < cutoff && has {
+							out.Oracle = append(out.Oracle, OracleFailure{"C04", "swept-marker-recreated", fmt.Sprintf("DBI %s key %x: deletion marker with timestamp %d is older than the load cutoff %d (snapshot dated %d, loaded at %d) but was re-created on an instance without an entry for the key", d.Name, e.Key, e.TimestampNano, cutoff, snapTS, clock), in})
+						}
+						if e.TimestampNano >= cutoff && !has {
+							out.Oracle = append(out.Oracle, OracleFailure{"C04", "marker-dropped", fmt.Sprintf("DBI %s key %x: deletion marker with timestamp %d is not older than the load cutoff %d but was not stored", d.Name, e.Key, e.TimestampNano, cutoff), in})
+						}
+					}
+				}
+			}
 			for _, d := range after {
 				if strings.HasPrefix(d.Name, "_sync_meta") {
 					out.Oracle = append(out.Oracle, OracleFailure{"C18", "private-dbi", "a private DBI from the snapshot was created locally", in})
@@ -474,7 +589,7 @@ func areaInstance(r *Rng, n int, dir string) (*AreaOut, error) {
 			}
 			// C18/C02: the merged state is, per key, the last-writer-wins join of what was stored and what came in
 			// (documented meaning per format version: v1 empty value = deletion, from v2 the deleted flag)
-			for _, f := range mergeResultOracle(native || !lc, native, fmtv, before, after, seenDBIs) {
+			for _, f := range mergeResultOracle(native || !lc, native, fmtv, cutoff, before, after, seenDBIs) {
 				f.Input = in
 				out.Oracle = append(out.Oracle, f)
 			}
@@ -555,11 +670,41 @@ func dumpOracle(native bool, envAfter []dbiDump, up []snapDBI) []OracleFailure {
 			fs = append(fs, OracleFailure{"C06", "complete", fmt.Sprintf("DBI %s: %d stored entries, %d in the snapshot", d.Name, len(src.Data), len(u.Entries)), nil})
 			continue
 		}
+		// shadow mode: the image is that of the APPLICATION DBI as of the dump transaction: its (key, value) pairs are
+		// exactly the live entries of the snapshot (the capture ran in the same transaction)
+		if !native && d.Flags&lmdb.DupSort == 0 {
+			app := map[string][]byte{}
+			for _, p := range d.Data {
+				app[string(p.K)] = p.V
+			}
+			live := map[string][]byte{}
+			for _, e := range u.Entries {
+				if e.Flags&1 == 0 {
+					live[string(e.Key)] = e.Value
+				}
+			}
+			for k, v := range app {
+				if lv, ok := live[k]; !ok || !bytes.Equal(lv, v) {
+					fs = append(fs, OracleFailure{"C06", "image-of-application-dbi", fmt.Sprintf("DBI %s key %x: the application DBI holds %x at the dump transaction, the snapshot has live=%v value %x", d.Name, k, v, ok, lv), nil})
+					break
+				}
+			}
+			for k, v := range live {
+				if _, ok := app[k]; !ok {
+					fs = append(fs, OracleFailure{"C06", "image-of-application-dbi", fmt.Sprintf("DBI %s key %x: the snapshot has a live entry (value %x) for a key that is not in the application DBI at the dump transaction", d.Name, k, v), nil})
+					break
+				}
+			}
+		}
 		for i, p := range src.Data {
 			lv, ok := logical(p.V)
 			e := u.Entries[i]
 			if !ok || !bytes.Equal(e.Key, p.K) || !bytes.Equal(e.Value, lv.Val) || e.TimestampNano != lv.TS || (e.Flags&1 == 1) != lv.Del || e.Flags > 1 {
 				fs = append(fs, OracleFailure{"C06", "entry", fmt.Sprintf("DBI %s key %x: stored %+v, snapshot has %s", d.Name, p.K, lv, kvCoq(e)), nil})
+				if ok && !bytes.Equal(e.Value, lv.Val) && len(p.V) >= 24 && (p.V[22] != 0 || p.V[23] != 0) {
+					// C14: the application value of a stored value with extension blocks is what follows ALL blocks
+					fs = append(fs, OracleFailure{"C14", "ext-blocks-read", fmt.Sprintf("DBI %s key %x: stored value %x (extension count %d) was dumped with application value %x instead of %x", d.Name, p.K, p.V, int(p.V[22])<<8|int(p.V[23]), e.Value, lv.Val), nil})
+				}
 				break
 			}
 		}
@@ -578,7 +723,7 @@ func lwwWins(n, o lver) bool {
 }
 
 // mergeResultOracle: per DBI and key of the snapshot, stored-after == LWW join(stored-before, incoming)
-func mergeResultOracle(applicable, native bool, fmtv uint32, before, after []dbiDump, sds []snapDBI) []OracleFailure {
+func mergeResultOracle(applicable, native bool, fmtv uint32, cutoff uint64, before, after []dbiDump, sds []snapDBI) []OracleFailure {
 	var fs []OracleFailure
 	if !applicable {
 		return nil // shadow mode with local changes: the capture step rewrites the baseline first (C11)
@@ -632,6 +777,14 @@ func mergeResultOracle(applicable, native bool, fmtv uint32, before, after []dbi
 				want = old
 			}
 			got, ok := logical(get(am[target], e.Key))
+			if !hadOld && in.Del && in.TS < cutoff {
+				// tomb sweeper configured: a marker older than the load cutoff is not re-created on an instance that has
+				// no entry for the key (C04); the dedicated oracle below checks both directions
+				if ok {
+					fs = append(fs, OracleFailure{Property: "C04", Clause: "swept-marker-recreated", Desc: fmt.Sprintf("format %d, DBI %s key %x: marker %+v older than the load cutoff %d was stored on an instance without an entry", fmtv, sd.Name, e.Key, in, cutoff)})
+				}
+				continue
+			}
 			if !ok || !got.eq(want) {
 				fs = append(fs, OracleFailure{Property: "C18", Clause: "merge-result", Desc: fmt.Sprintf("format %d, DBI %s key %x: stored %+v (present=%v), incoming %+v, result %+v (present=%v), last-writer-wins gives %+v", fmtv, sd.Name, e.Key, old, hadOld, in, got, ok, want)})
 				break
